@@ -301,6 +301,32 @@ theorem silent_outside (c : Cfg) (final : Bool) (ts : Rat) (s : St) (m : Member)
       | true => exact absurd hb hc
       | false => simp [ha]
 
+/-- **period_follows_condition**: in a round in which member `m` is visited and its activation condition can be
+evaluated (`condOf` = `some (ok b)`: dependencies satisfied, or the final round where it counts as false), the
+member is auditing after the visit exactly when the condition holds (unless the visit aborted on an evaluation
+error): a period starts in the very round the condition becomes true and ends in the very round it becomes false. -/
+theorem period_follows_condition (c : Cfg) (final : Bool) (ts : Rat) (s : St) (m : Member) (b : Bool)
+    (hab : s.abort = none) (hc : condOf final s m = some (.ok b))
+    (hna : (visit c final ts s m).abort = none) :
+    ((visit c final ts s m).aud m.name).auditing = b := by
+  unfold visit at hna ⊢
+  simp only [hab, Option.isSome_none, Bool.false_eq_true, if_false, hc] at hna ⊢
+  cases b with
+  | false =>
+    cases ha : (s.aud m.name).auditing with
+    | false => simp [ha]
+    | true =>
+      simp only [ha, Bool.false_and, Bool.not_true, Bool.false_eq_true, if_false] at hna ⊢
+      exact endPeriod_closes _ ts m hna
+  | true =>
+    cases ha : (s.aud m.name).auditing with
+    | false =>
+      simp only [ha, Bool.not_false, Bool.and_self, if_true] at hna ⊢
+      rw [checkExpect_auditing, (assignAll_same c ts _ m.assigns m.name).auditing]; simp
+    | true =>
+      simp only [ha, Bool.not_true, Bool.and_false, Bool.false_eq_true, if_false, if_true] at hna ⊢
+      rw [checkExpect_auditing, (assignAll_same c ts _ m.assigns m.name).auditing]; exact ha
+
 /-- conversely, `assignAll` and `checkExpect` run in a visit only in a round of a period -/
 theorem active_only_inside (c : Cfg) (final : Bool) (ts : Rat) (s : St) (m : Member)
     (h : visit c final ts s m ≠ s) :
